@@ -29,6 +29,13 @@ CLAIMED = {
    note="Trusted: reference ledger of the producer chain. Staking slips and NFTs are not generated.",
    technique="deterministic simulation: seeded payment/spend/confirm/drop/reorg/expiry histories through a real node + wallet-vs-ledger model"),
 
+ "C20": dict(
+   level="exploration",
+   text="A producing full node, 0..2 observers (one optionally SPV) that dial, handshake and sync, a wallet and up to 4 external peers that connect, (mis)authenticate, request chains / ghost chains, send key lists, services, transactions, announce blocks whose bodies are garbage / a different block / an invalid block, and leave; 10..60/160 scripted operations per run. Hook H5 logs every lock request of saito-core code with the locks the task holds: no request for a rank while a later rank is held (configs 3 < blockchain 4 < mempool 5 < peers 6 < wallet 7) unless a write-held earlier lock serialises every observed opposite-order acquisition; no re-request of a held lock with a writer involved. In 5 of 6 runs the four processors of a node run as concurrent tasks (event handler, timer call or statistics call each) under a seeded poll-level scheduler that may suspend a task before every lock request and inside every I/O call; unfinished tasks with none woken = deadlock, reported with holders and awaited locks. Scope: saito-core paths the simulator drives (84 of the 93 acquisition sites present in non-test source; tools/lock_sites.py lists them); saito-rust, saito-spammer and the saito-wasm gate are not run.",
+   design="§6 C20, §7",
+   note="Trusted: hook H5 (wrapper records at request time; ranks by type name). Dynamic: only executed paths are judged.",
+   technique="deterministic simulation: lock-rank monitor over seeded multi-node workloads + seeded poll-level interleaving of the processors with deadlock detection"),
+
  "C14": dict(
    level="exploration",
    text="One real node (consensus processor with timer-driven bundling and the real mempool): 4..40/120 seeded operations mixing transaction arrivals (valid, two-input, conflicting, duplicate), staging and bundling ticks, peer blocks that confirm / partially spend / conflict with pooled transactions, invalid peer blocks and a peer fork that reorganises away the last block. After every operation a reference view of the pool is checked: no shared inputs, every pooled transaction valid against the ledger, reservations subset of pooled inputs, routing-work cache exact, bundling all-or-nothing, and an active probe that an unreserved unspent output can be spent by a fresh transaction.",
